@@ -7,7 +7,8 @@ COMMON_NOTE = ("Trusted: Coq 8.16.1 kernel incl. vm_compute (no native_compute);
                "(hashlib, cryptography, pyOpenSSL, json, cbor2). Theorems are about the hand-written Gallina model coq/Model/*.v, tied to /repo on "
                "every run by (1) regenerated coq/Generated/Constants.v and (2) differential execution model vs implementation; generated inputs include the "
                "literals the current source has and the pinned baseline harness/srcdict_baseline.json lacks, a size ladder, child interpreters under other process "
-               "environments and equivalent spellings of the same input (DESIGN 2.9). ")
+               "environments (incl. zip import, stand-ins for newly imported optional packages, newly named files), equivalent spellings and call shapes of the same input, "
+               "the RP's policy containers reused after in-place edits, clones of every result, parameters newly added to entry points (DESIGN 2.9). ")
 CLAIMS = {
  "C14": dict(
    text="Machine-checked theorems (all byte strings, any length, any amount of '=' padding): round trip, alphabet, injectivity, over an exact Gallina model of CPython's lenient base64 decoder; the model is tied to the code by exhaustive (length 0-2) and seeded differential execution.",
@@ -48,7 +49,7 @@ CLAIMS = {
    technique="Coq proof (inversion + table obligations by vm_compute) + differential product sampling", ref="3/C05"),
  "C06": dict(
    text="Theorem (under explicit hypotheses sig_binds_msg / sha256 collision-freeness as premises): any change of authenticatorData, clientDataJSON or signature of an accepted assertion is rejected - the proof content is that the whole raw bytes reach the verifier. Exhaustive bit-flip evaluation over every position for authentication and signed registration formats.",
-   note="PARTIAL: non-malleability of the signature schemes is a premise and is tested, not proved. Known finding: fido-u2f signature base does not cover flags/counter (spec-inherent).",
+   note="PARTIAL: non-malleability of the signature schemes is a premise and is tested, not proved. Known findings: fido-u2f signature base does not cover flags/counter (spec-inherent); F12: an Ed25519 stored key of small order makes one fixed signature valid for every message, so changed bits survive (the premise 'one message per signature' fails for such keys - C06_unconditional_refuted states this inside the development; the check reproduces it on every run and lists it by key encoding).",
    technique="Coq proof under stated crypto premises + exhaustive bit-flip fault enumeration", ref="3/C06"),
  "C08": dict(
    text="Theorems: canonical COSE key bytes survive parse/re-encode unchanged for ALL well-formed CBOR values (nested induction, no bound); registration returns those bytes; chain/cross statements under oracle hypotheses. Correspondence: register->authenticate chains for every format x algorithm, ordered cross-credential pairs.",
